@@ -148,8 +148,8 @@ where
         let page_address = address & PAGE_MASK;
         self.pages
             .get(&page_address)
-            .map(|page| page.permissions().cloned())
-            .unwrap_or_else(|| {
+            .and_then(|page| page.permissions().cloned())
+            .or_else(|| {
                 self.backing()
                     .and_then(|backing| backing.permissions(address))
             })
